@@ -222,20 +222,24 @@ class Parser:
             self._comments[:] = []  # clear any comments from a previous parse
             ip = self.lalr.parse_interactive(text)
             for t in ip.iter_parse():
+                stack = ip.parser_state.value_stack
+                # the previous token, if it is a keyword (a bare word used as a value is
+                # preceded on the stack by the token of its own keyword)
+                previous = None
+                if stack and not (len(stack) > 1 and hasattr(stack[-2], "type")):
+                    previous = stack[-1]
+
                 if t.type == "UNQUOTED_STRING":
                     # Unquoted strings after SYMBOL can only be values, not attributes
                     if (
-                        ip.parser_state.value_stack
-                        and ip.parser_state.value_stack[-1].upper() == "SYMBOL"
+                        previous is not None
+                        and previous.upper() == "SYMBOL"
                         and t.value.upper() not in SYMBOL_ATTRIBUTES
                     ):
                         t.type = "UNQUOTED_STRING_VALUE"
                 elif t.type == "GRID":
                     # Unquoted 'GRID' coming after NAME is always a value, not a composite type
-                    if (
-                        ip.parser_state.value_stack
-                        and ip.parser_state.value_stack[-1].upper() == "NAME"
-                    ):
+                    if previous is not None and previous.upper() == "NAME":
                         t.type = "UNQUOTED_STRING_VALUE"
 
             tree = ip.resume_parse()
